@@ -12,6 +12,20 @@
 (* JSON; one action per public operation (Receive = NewEventFromUntrusted- *)
 (* JSON, Build = EventBuilder.Build, CheckFields) writes the judgement.    *)
 (* The rule is the same on every path and in every room version.           *)
+(*                                                                         *)
+(* On receipt the content hash of the event may or may not match           *)
+(* (dimension `hash`).  A mismatch only means that the event which         *)
+(* survives is the redacted form; the sentence makes no exception for it,  *)
+(* so the judgement is the same, evaluated on what survives redaction:     *)
+(* type, state key, sender and room ID are kept by every redaction         *)
+(* algorithm, and the size scenarios grow the event through auth_events,   *)
+(* which is kept as well.  "mismatch": redaction changes the JSON (the     *)
+(* receiver re-parses the redacted form); "mismatch_same": the hash is     *)
+(* wrong but redaction leaves the JSON as it is.  Because the received     *)
+(* JSON of a "mismatch" event is larger than the surviving one, its size   *)
+(* scenarios keep both on the same side of the limit (sizeof says which    *)
+(* of the two has exactly `size` bytes): received <= 65 536 implies        *)
+(* surviving <= 65 536, surviving > 65 536 implies received > 65 536.      *)
 (***************************************************************************)
 EXTENDS MatrixBase
 
@@ -22,6 +36,10 @@ MaxEventLen == 65536
 
 Fields == {"type", "state_key", "sender", "room_id"}
 Paths == {"receipt", "build", "checkfields"}
+Hashes == {"match", "mismatch", "mismatch_same"}
+HashesOf(p) == IF p = "receipt" THEN Hashes ELSE {"match"}
+\* which JSON of the scenario has exactly `size` bytes
+SizeOf(h, sz) == IF sz = 0 THEN "n/a" ELSE IF h # "mismatch" THEN "both" ELSE IF sz > MaxEventLen THEN "surviving" ELSE "received"
 
 \* sender and room ID are spelled  sigil filler ":hs1"  (5 ASCII characters around the filler);
 \* type and state key are pure filler
@@ -62,8 +80,8 @@ Pairs   == {[size |-> 0, fields |-> [AllNatural EXCEPT ![q[1]] = SoftOnly, ![q[2
 Scenarios == IF Family = "single" THEN Singles \cup Sizes ELSE Pairs
 
 Init == /\ phase = "scenario" /\ out = "none"
-        /\ \E v \in Versions, p \in Paths, s0 \in Scenarios :
-             sc = [ver |-> v, path |-> p, size |-> s0.size, fields |-> s0.fields]
+        /\ \E v \in Versions, p \in Paths, s0 \in Scenarios : \E h \in HashesOf(p) :
+             sc = [ver |-> v, path |-> p, hash |-> h, size |-> s0.size, sizeof |-> SizeOf(h, s0.size), fields |-> s0.fields]
 
 \* --- the rule ----------------------------------------------------------------
 Hard(s) == s.size > MaxEventLen \/ \E f \in Fields : CpsOf(s.fields[f]) > MaxFieldLen
@@ -83,6 +101,8 @@ RefusedWhenOver == Done => ((sc.size > 65536 \/ \E f \in Fields : sc.fields[f].c
 PersistableOnlyBytes == Done => (out = "persistable" <=>
                                    /\ sc.size <= 65536 /\ \A f \in Fields : sc.fields[f].cps <= 255
                                    /\ \E f \in Fields : BytesOf(sc.fields[f]) > 255)
+\* a mismatching content hash changes nothing
+HashIndependent == Done => out = Judgement([sc EXCEPT !.hash = "match", !.sizeof = "both"])
 OkWithin == Done => (out = "ok" <=> sc.size <= 65536 /\ \A f \in Fields : BytesOf(sc.fields[f]) <= 255)
 ShapesWellFormed == \A f \in Fields : LET sh == sc.fields[f] IN
                        sh = Natural \/ (/\ BytesOf(sh) >= CpsOf(sh) /\ sh.nwide >= 0 /\ sh.nwide <= sh.cps - Frame(f)
